@@ -1,10 +1,12 @@
 //! Driver for gossipsub wire/caches/config and prost-codec (C57, C31, C33, C34, C30).
+mod config;
 mod framing;
 
 fn main() {
     let a = vcommon::Args::parse();
     match a.mode.as_str() {
         "framing" => framing::main(&a),
+        "config" => config::main(&a),
         m => {
             eprintln!("unknown mode {m}");
             std::process::exit(2)
